@@ -177,9 +177,14 @@ def scalar_data(rng, n, kind=None):
 
 def euler_prim(rng, n, kind=None, mach_max=2.5, ratio=10.0):
     """primitive Euler data (rho, u, p) of n cells"""
-    kind = kind or str(rng.choice(["random", "step", "smooth", "uniform", "stream"]))
+    kind = kind or str(rng.choice(["random", "step", "smooth", "uniform", "stream", "acoustic"]))
     r0, p0 = 10 ** rng.uniform(-1, 1), 10 ** rng.uniform(-1, 1)
-    if kind == "stream":
+    if kind == "acoustic":
+        # nearly at rest: velocities of 1e-14...1e-4 sound speeds and equally small density/pressure disturbances (linear acoustics)
+        eps = float(10 ** rng.uniform(-14, -4))
+        rho = r0 * (1 + eps * rng.uniform(-1, 1, n)); p = p0 * (1 + eps * rng.uniform(-1, 1, n))
+        u = eps * rng.uniform(-1, 1, n) * np.sqrt(1.4 * p0 / r0)
+    elif kind == "stream":
         # one stream direction everywhere (all cells super- or all subsonic, to the left or to the right) with small smooth variations
         x = (np.arange(n) + 0.5) / n
         rho = smooth(rng, x, 1.0, r0, r0 * 1.1); p = smooth(rng, x, 1.0, p0, p0 * 1.1)
@@ -381,7 +386,7 @@ def prim_for(mname, model, rng, n, dkind=None, mach_max=2.0, ratio=10.0):
         return [q], k
     if mname == "shallowwater":
         return sw_prim(rng, n, dkind if dkind in ("random", "step", "smooth", "stream") else None, froude_max=mach_max, ratio=ratio, g=model.g)
-    return euler_prim(rng, n, dkind if dkind in ("random", "step", "smooth", "uniform", "stream") else None, mach_max=mach_max, ratio=ratio)
+    return euler_prim(rng, n, dkind if dkind in ("random", "step", "smooth", "uniform", "stream", "acoustic") else None, mach_max=mach_max, ratio=ratio)
 
 
 def open_bc(mname, model, rng, prim, side):
